@@ -83,3 +83,15 @@ HARNESSES.append(
          undefined_ok="*", cbmc_flags=["--object-bits", "10"],
          unwind=12, unwindset={"vf_bytes:/./": 60, "memmove:/for \\(i = 0/": 50, "malloc:/for \\(j = /": 9, "vf_heap_slot_of:/for \\(j = /": 9},
          cases=[dict(name="op%d_size%d" % (o, n), defs={"VF_OP": o, "VF_SIZE": n}) for o in range(5) for n in ((24,) if o in (0, 3) else (10,))]))
+
+DN = dict(name="dn_attrs", src="dn_attrs.c", checks=M, units=["crypto/keyformat/asn1.c", "core/src/psbuf.c"],
+         functions=["psX509GetDNAttributes", "getAsnSequence", "getAsnSet", "getAsnLength"],
+         sources=["crypto/keyformat/x509.c", "crypto/keyformat/asn1.c"],
+         assumptions=["dn_attrs: input is an object of exactly 20 bytes, contents arbitrary; SHA-1 is a stub that reads both ends of its input; heap = static-pool model (blocks <= 64 bytes)"],
+         undefined_ok="*", cbmc_flags=["--object-bits", "10"],
+         unwind=14, unwindset={"vf_bytes:/./": 60, "memmove:/for \\(i = 0/": 66, "malloc:/for \\(j = /": 9, "vf_heap_slot_of:/for \\(j = /": 9,
+                               "psX509GetDNAttributes:/for \\(i = 0; i < DN_NUM/": 40, "memset.0": 70,
+                               "psX509GetDNAttributes:/while \\(p < dnEnd\\)/": 4, "psX509GetDNAttributes:/goto MORE_IN_SET/": 3},
+         cap_s=1800,
+         cases=[dict(name="size20", defs={"VF_SIZE": 20})])
+HARNESSES.append(DN)
